@@ -96,6 +96,11 @@ func TestMakeWitnesses(t *testing.T) {
 	write("C11", "put-rejected/>34-digits", "F7-put-rejected-34-digits", baseGen(), with(
 		batch(d(2020, 1, 1), d(2021, 1, 1), "99999999999999999999999999999.999999"), basketStep(nil),
 		step{"put", &baskettypes.MsgPut{Owner: a1, BasketDenom: "eco.uC.NCT", Credits: []*baskettypes.BasketCredit{{BatchDenom: "C01-001-20200101-20210101-001", Amount: "99999999999999999999999999999.999999"}}}}))
+	write("C11", "put-rejected/>34-digits-as-spelled", "F15-put-rejected-34-digits-as-spelled", baseGen(), with(
+		batch(d(2020, 1, 1), d(2021, 1, 1), "1000000000000000000000000000000"), basketStep(nil),
+		step{"put", &baskettypes.MsgPut{Owner: a1, BasketDenom: "eco.uC.NCT", Credits: []*baskettypes.BasketCredit{{BatchDenom: "C01-001-20200101-20210101-001", Amount: "1000000000000000000000000000000"}}}},
+		step{"take", &baskettypes.MsgTake{Owner: a1, BasketDenom: "eco.uC.NCT", Amount: "1000000000000000000000000000000000000", RetireOnTake: false}},
+		step{"put", &baskettypes.MsgPut{Owner: a1, BasketDenom: "eco.uC.NCT", Credits: []*baskettypes.BasketCredit{{BatchDenom: "C01-001-20200101-20210101-001", Amount: "1000000000000000000000000000000.000000"}}}}))
 	write("C11", "put-rejected/window>292y", "F12-put-rejected-window-292y", baseGen(), with(
 		batch(d(1, 1, 1), d(2, 1, 1), "10"), basketStep(&baskettypes.DateCriteria{StartDateWindow: &gogotypes.Duration{Seconds: 3000 * 365 * 24 * 3600}}),
 		step{"put", &baskettypes.MsgPut{Owner: a1, BasketDenom: "eco.uC.NCT", Credits: []*baskettypes.BasketCredit{{BatchDenom: "C01-001-00010101-00020101-001", Amount: "1"}}}}))
